@@ -166,7 +166,7 @@ def run(tier):
                             w.append(s[3])
         if not w:
             continue
-        ok = f.parent in REGISTER_WRITERS
+        ok = f.parent in REGISTER_WRITERS or M.only_called_from(fx, f.parent, set(REGISTER_WRITERS))
         ck.instance("G2.register-writers", f.parent, F.short_span(w[0]), ok=ok)
         if not ok:
             ck.finding("G2.register-writers", "G2.register-writers/" + f.parent, F.short_span(w[0]),
